@@ -26,7 +26,7 @@ def run(res, args):
     drv = corr.driver_exe()
 
     # ---- spec stream: well-formed documents with the specification's events as oracle
-    sg = specgen.SpecGen(d, rng)
+    sg = specgen.SpecGen(d, rng); sg.deep = True
     spec_lines, expected = [], []
     per_lang = 12 if res.tier == 'quick' else 400
     for lang in d['langs']:
